@@ -140,6 +140,8 @@ pub fn run(ctx: &mut Ctx) {
     let targets: Vec<(&str, &str)> = vec![
         ("CONNECT", "_check"), ("CONNECT", "_udp2"), ("CONNECT", "_icmp"), ("GET", "_check"), ("CONNECT", "example.org:443"), ("CONNECT", "example.org"),
         ("CONNECT", "refused.example:1"), ("CONNECT", "policy.example:1"), ("GET", "example.org"), ("POST", "refused.example:1"),
+        // plain-HTTP requests whose origin is reached: the request is forwarded (Authorization and Cookie travel on, end to end)
+        ("GET", "fine.example"), ("POST", "fine.example:8080"),
     ];
     let mut script = FwdScript::default();
     script.connect.insert("refused.example:1".into(), ConnectScript::Refused);
